@@ -3,12 +3,13 @@
 # property on it (one load, `pqverif -sweep`, quick configuration), reverts.
 cd /verif
 . /verif/env.sh >/dev/null 2>&1
+R=${VERIF_REPO:-/repo}   # a scratch worktree may stand in for /repo so that shards can run side by side
 IDS=${*:-$(ls seeded)}
-[ -n "$(git -C /repo status --porcelain)" ] && { echo "/repo not clean"; exit 2; }
+[ -n "$(git -C $R status --porcelain)" ] && { echo "$R not clean"; exit 2; }
 for id in $IDS; do
-  git -C /repo apply /verif/seeded/$id/patch.diff 2>/dev/null || { echo "$id: patch does not apply"; continue; }
-  out=$(./bin/pqverif -sweep -known /verif/known_findings.json 2>&1)
-  git -C /repo checkout -- .
+  git -C $R apply /verif/seeded/$id/patch.diff 2>/dev/null || { echo "$id: patch does not apply"; continue; }
+  out=$(./bin/pqverif -sweep -repo $R -known /verif/known_findings.json 2>&1)
+  git -C $R checkout -- .
   HIT=$(echo "$out" | grep "^SWEEP\|^LOAD-FAILED" | sed 's/^SWEEP //' | python3 -c "
 import sys,re
 parts=[]
